@@ -3,6 +3,7 @@
 package c19
 
 import (
+	"sync/atomic"
 	"fmt"
 	"math/rand/v2"
 	"net"
@@ -32,7 +33,87 @@ func init() {
 			"non-trivial = name present in >= 2 sources or a look-alike/filtered query; distinct by (set of sources containing the name, query variant class)",
 		Run:              run,
 		CrashIsViolation: true,
+		HasRacePart:      true,
+		RaceAnchors:      []string{`storage\.\(\*MemStorage\)`, `dns\.\(\*Server\)`, `storage\.\(\*JSONFileStorage\)`},
 	})
+}
+
+// concurrent: questions are answered while mappings and routers are stored and removed (a router learns
+// mappings while it serves DNS). Answers for names that no writer touches must stay what the reference says; the
+// race-detector build reports unsynchronised access to the store; a fatal "concurrent map" error kills the worker.
+func concurrent(res *core.Result, r *rand.Rand, rounds int) {
+	w, err := buildWorld(r)
+	if err != nil {
+		return
+	}
+	defer w.conn.Close()
+	var stable []string
+	for _, n := range w.names {
+		if _, src := w.rc.refLookup(n); src != "" {
+			stable = append(stable, n)
+		}
+	}
+	stable = append(stable, "unknown-name.myco")
+	var wg sync.WaitGroup
+	stop := make(chan struct{})
+	var bad atomic.Int64
+	for g := 0; g < 3; g++ {
+		wg.Add(1)
+		go func(g int) {
+			defer wg.Done()
+			for i := 0; ; i++ {
+				select {
+				case <-stop:
+					return
+				default:
+				}
+				n := fmt.Sprintf("churn-%d-%d.myco", g, i%40)
+				ip := netip.AddrFrom16([16]byte{0xfd, 1, byte(g), byte(i), 5: 1})
+				_ = w.store.SaveMapping(n, ip)
+				if i%3 == 0 {
+					_ = w.store.DeleteMapping(n)
+				}
+				_, _ = w.store.GetMapping(n)
+			}
+		}(g)
+	}
+	var readers sync.WaitGroup
+	for g := 0; g < 4; g++ {
+		readers.Add(1)
+		go func(g int) {
+			defer readers.Done()
+			for i := 0; i < rounds; i++ {
+				n := stable[(i*7+g)%len(stable)]
+				wantIP, wantSrc := w.rc.refLookup(n)
+				ip, src := w.srv.Lookup(n)
+				if wantSrc == "" || wantSrc == "forbidden" {
+					if ip.IsValid() {
+						bad.Add(1)
+					}
+				} else if ip != wantIP || string(src) == "" {
+					bad.Add(1)
+				}
+				rec := &recorder{}
+				q := new(mdns.Msg)
+				q.Question = []mdns.Question{{Name: n + ".", Qtype: mdns.TypeAAAA, Qclass: mdns.ClassINET}}
+				w.srv.ServeDNS(rec, q)
+			}
+		}(g)
+	}
+	// the readers finish their rounds, then the writers are stopped
+	readers.Wait()
+	close(stop)
+	wg.Wait()
+	if bad.Load() > 0 {
+		w.violate(res, "answer-changed-under-concurrent-mapping-updates", fmt.Sprintf("%d lookups of names no writer touched returned something else than the reference while mappings of other names were stored and removed", bad.Load()), nil)
+		return
+	}
+	if w.panicAlerts() > 0 {
+		w.violate(res, "resolver-panic", "the resolver panicked while mappings were stored concurrently", nil)
+		return
+	}
+	res.Count("concurrent_rounds", int64(rounds*4))
+	res.Case(fmt.Sprintf("concurrent|%d", r.IntN(1<<30)), true)
 }
 
 var apiAddr = netip.MustParseAddr("fd00::b909")
@@ -218,6 +299,11 @@ func buildWorld(r *rand.Rand) (*world, error) {
 		rc.mappings[cleaned] = ip
 		if err := w.store.SaveMapping(cleaned, ip); err != nil {
 			return nil, err
+		}
+	}
+	for _, o := range storedOutsiders {
+		if r.IntN(2) == 0 {
+			_ = w.store.SaveMapping(o, routable(r))
 		}
 	}
 	inst := env.NewBareInstance(env.NewIdentity(r, nil), cfg)
@@ -418,7 +504,11 @@ func (w *world) judge(res *core.Result, via string, reply *mdns.Msg, qname strin
 }
 
 var outsiders = []string{"example.com.", "x.myco.evil.", "xmyco.", "myco.", ".", "router.myco.evil.", "router.mycoo.", "router.myc.", "myco.router.", "router\\.myco.",
-	"a.b.c.d.e.f.myco.com.", "MYCO.", "router.myco.myco.x."}
+	"a.b.c.d.e.f.myco.com.", "MYCO.", "router.myco.myco.x.", "intranet.notmyco.", "notmyco.", "www.example.xmyco.", "Intranet.NotMyco.", "a.b.amyco."}
+
+// storedOutsiders: names outside .myco for which a mapping is stored (the store does not validate keys; they can
+// arrive through SaveMapping or a loaded state file). A stored mapping never makes such a name answerable.
+var storedOutsiders = []string{"example.com", "xmyco", "myco", "intranet.notmyco", "notmyco", "www.example.xmyco", "a.b.amyco", "x.myco.evil"}
 
 func runWorld(res *core.Result, r *rand.Rand, wire bool, tier core.Tier) {
 	w, err := buildWorld(r)
@@ -593,6 +683,15 @@ func parallel(n int, fn func(w int)) {
 
 func run(c *core.Ctx) {
 	res := c.Res
+	if c.RaceBuild {
+		for i := 0; i < c.Q(6, 60); i++ {
+			concurrent(res, core.RNG(fmt.Sprintf("c19/race/%d", i)), 400)
+		}
+		return
+	}
+	for i := 0; i < c.Q(6, 60); i++ {
+		concurrent(res, core.RNG(fmt.Sprintf("c19/conc/%d", i)), 3000)
+	}
 	n := c.Q(200, 5000)
 	const W = 16
 	parallel(W, func(wi int) {
